@@ -114,21 +114,20 @@ Print Assumptions C39_partial.
 
 (* Non-vacuity of C39_refuted: the three witnesses run through the model of the unchanged code. *)
 Example C39_refuted_witnesses :
-  (exists c, run_default w_blank = Some c /\ c o_bfn = [s "BUILD"; s "BUILD.plz"]
-             /\ spec_value real_schema o_bfn (srcs_default w_blank) [] = [])
-  /\ (exists c, run_default w_preset = Some c
-             /\ c o_maven = [s "https://repo1.maven.org/maven2"; s "https://jcenter.bintray.com/"; s "https://a.example/x"]
-             /\ spec_value real_schema o_maven (srcs_default w_preset) [] = [s "https://a.example/x"])
-  /\ (exists c, run_default w_derived = Some c /\ c o_gotool = [s "/usr/lib/go/bin/go"]
-             /\ spec_value real_schema o_gotool (srcs_default w_derived) [] = [s "/usr/bin/go"]).
+  (value_at (run_default w_blank) o_bfn = Some [s "BUILD"; s "BUILD.plz"]
+     /\ spec_value real_schema o_bfn (srcs_default w_blank) [] = [])
+  /\ (value_at (run_default w_preset) o_maven
+         = Some [s "https://repo1.maven.org/maven2"; s "https://jcenter.bintray.com/"; s "https://a.example/x"]
+       /\ spec_value real_schema o_maven (srcs_default w_preset) [] = [s "https://a.example/x"])
+  /\ (value_at (run_default w_derived) o_gotool = Some [s "/usr/lib/go/bin/go"]
+       /\ spec_value real_schema o_gotool (srcs_default w_derived) [] = [s "/usr/bin/go"]).
 Proof.
-  split; [|split].
-  - destruct witness_blank as [c [H1 [H2 [H3 _]]]]. now exists c.
-  - destruct witness_preset as [c [H1 [H2 [H3 _]]]]. now exists c.
-  - destruct witness_derived as [c [H1 [H2 [H3 _]]]]. now exists c.
+  exact (conj (conj (proj1 witness_blank) (proj1 (proj2 witness_blank)))
+        (conj (conj (proj1 witness_preset) (proj1 (proj2 witness_preset)))
+              (conj (proj1 witness_derived) (proj1 (proj2 witness_derived))))).
 Qed.
 
-(* Non-vacuity of C39_partial: five existing files incl. a profile file, a missing file, a blank reset in the
+(* Non-vacuity of C39_partial: five existing files incl. a profile file, missing files, a blank reset in the
    middle, an override; the hypotheses of clause 1 hold and the values are the expected non-trivial ones. *)
 Example C39_partial_nonvacuous :
   let o_cfg := Single SStr (s "build.config") in
@@ -140,16 +139,15 @@ Example C39_partial_nonvacuous :
               (s "/r/.plzconfig.local", [Assign o_bfn (s "BUILD.local")]) ] in
   let ovs := [(o_bfn, s "X,Y")] in
   let srcs := sources fs (read_order (default_files root_env) [s "dev"]) in
+  let r := effective real_schema fs (default_files root_env) [s "dev"] ovs in
   wf_schema real_schema
-  /\ (exists c, effective real_schema fs (default_files root_env) [s "dev"] ovs = Some c
-        /\ c o_cfg = [s "dev"] /\ c o_bl = [s "c"; s "d"] /\ c o_bfn = [s "X"; s "Y"]
-        /\ c (Multi (s "build.path")) = [s "/usr/local/bin"; s "/usr/bin"; s "/bin"])
+  /\ value_at r o_cfg = Some [s "dev"] /\ value_at r o_bl = Some [s "c"; s "d"]
+  /\ value_at r o_bfn = Some [s "X"; s "Y"]
+  /\ value_at r (Multi (s "build.path")) = Some [s "/usr/local/bin"; s "/usr/bin"; s "/bin"]
   /\ defect_class real_schema srcs ovs o_cfg = None
   /\ defect_class real_schema srcs ovs o_bl = None
   /\ defect_class real_schema srcs ovs o_bfn = None
   /\ length srcs = 5%nat.
 Proof.
-  cbn zeta. split; [exact real_schema_wf|]. split.
-  - eexists. split; [vm_compute; reflexivity|]. vm_compute. repeat split.
-  - vm_compute. repeat split.
+  cbn zeta. split; [exact real_schema_wf|]. vm_compute. repeat split.
 Qed.
